@@ -100,6 +100,9 @@ func (s *State) evalIndexAssigment(which ast.Node, index, value object.Object) o
 		return value
 	case object.MAP:
 		m := val.(object.Map)
+		if isContainer(index) {
+			object.MustFitExpanded(index) // keys are compared in full.
+		}
 		if isContainer(value) || isContainer(index) {
 			m = object.CloneMap(m) // same as for arrays: no cycles.
 		}
@@ -403,6 +406,9 @@ func (s *State) evalMapLiteral(node *ast.MapLiteral) object.Object {
 		if key.Type() == object.ERROR {
 			return key
 		}
+		if isContainer(key) {
+			object.MustFitExpanded(key) // keys are compared in full.
+		}
 		if !object.Equals(key, key) {
 			log.Warnf("key %s is not hashable", key.Inspect())
 			return s.NewError("key " + key.Inspect() + " is not hashable")
@@ -667,6 +673,9 @@ func (s *State) evalIndexExpressionIdx(left, index object.Object) object.Object 
 
 func evalMapIndexExpression(assoc, key object.Object) object.Object {
 	m := assoc.(object.Map)
+	if isContainer(key) {
+		object.MustFitExpanded(key) // keys are compared in full.
+	}
 	v, ok := m.Get(key)
 	if !ok {
 		return object.NULL
@@ -1279,6 +1288,10 @@ func (s *State) evalMinusPrefixOperatorExpression(right object.Object) object.Ob
 func (s *State) evalInfixExpression(operator token.Type, left, right object.Object) object.Object {
 	rightVal, rightIsInt := Int64Value(right)
 	leftVal, leftIsInt := Int64Value(left)
+	if isContainer(left) && isContainer(right) {
+		// Comparing walks both values in full, shared parts as often as they occur, with nothing to interrupt it.
+		object.MustFitExpanded(left, right)
+	}
 	switch {
 	case operator == token.EQ:
 		return object.NativeBoolToBooleanObject(object.Equals(left, right))
